@@ -107,3 +107,9 @@ def device_wiring(c):
 def contracts(tier):
     yield ("USBDataPacketReceiver", "standalone", receiver)
     yield ("USBDevice", "crc_wiring", device_wiring)
+    # device with endpoints: every user of the shared CRC unit (transmitter, receiver, endpoints) sees its output and can reseed
+    # it; the receiver's outputs reach every endpoint; the receiver's response timer is the device's shared timer (C05)
+    from .w1_usb2_glue import device_wiring as glue
+    yield ("USBDevice", "wiring_utmi", glue("utmi", ("crc", "rx")))
+    if tier != "quick":
+        yield ("USBDevice", "wiring_ulpi", glue("ulpi", ("crc", "rx")))
